@@ -448,3 +448,144 @@ Example merge_oracle_hyps_satisfiable :
   let r := [([Some 1; Some 1], 3)] in
   merge_ok b l r (model_merge b l r) = true /\ mo_class (model_merge b l r) = 1.
 Proof. split; vm_compute; reflexivity. Qed.
+
+(* ====================================================================== *)
+(* Round 4: the secondary index of a keyless table mirrors the stored multiset *)
+(* ====================================================================== *)
+Lemma ientry_eqb_spec27 a b : ientry_eqb a b = true <-> a = b.
+Proof.
+  destruct a as [v k], b as [v' k']. unfold ientry_eqb. cbn [fst snd]. rewrite andb_true_iff, N.eqb_eq.
+  destruct (cell_eqb_spec v v') as [E|NE]; split; intro H.
+  - destruct H. congruence.
+  - split; [reflexivity|congruence].
+  - destruct H. discriminate.
+  - inversion H. contradiction.
+Qed.
+
+Lemma cell_eqb_sym27 a b : cell_eqb a b = cell_eqb b a.
+Proof. destruct (cell_eqb_spec a b), (cell_eqb_spec b a); congruence. Qed.
+
+Lemma imem_iput v h e ix : imem v h (iput e ix) = ientry_eqb (v, h) e || imem v h ix.
+Proof.
+  unfold iput. destruct (imem (fst e) (snd e) ix) eqn:M; [|reflexivity].
+  destruct (ientry_eqb (v, h) e) eqn:E; [|reflexivity]. apply ientry_eqb_spec27 in E. subst e. cbn [fst snd] in M.
+  rewrite M. reflexivity.
+Qed.
+
+Lemma imem_idel27 v h e ix : imem v h (idel e ix) = imem v h ix && negb (ientry_eqb e (v, h)).
+Proof.
+  unfold imem, idel. induction ix as [|x ix IH]; cbn [filter existsb]; [reflexivity|].
+  destruct (ientry_eqb e x) eqn:E; cbn [negb].
+  - rewrite IH. apply ientry_eqb_spec27 in E. subst x.
+    destruct (ientry_eqb (v, h) e) eqn:E2; cbn [orb]; [|reflexivity].
+    apply ientry_eqb_spec27 in E2. subst e.
+    assert (H : ientry_eqb (v, h) (v, h) = true) by (apply ientry_eqb_spec27; reflexivity).
+    rewrite H. cbn [negb]. rewrite !andb_false_r. reflexivity.
+  - cbn [existsb]. rewrite IH. destruct (ientry_eqb (v, h) x) eqn:E2; cbn [orb]; [|reflexivity].
+    apply ientry_eqb_spec27 in E2. subst x. rewrite E. reflexivity.
+Qed.
+
+Lemma ientry_eqb_key v h v' h' : ientry_eqb (v, h) (v', h') = cell_eqb v v' && (h =? h').
+Proof. reflexivity. Qed.
+
+Section IndexMirror.
+  Variable hash : row -> N.
+  Hypothesis hash_inj : forall a b, hash a = hash b -> a = b.
+
+  Definition keyed27 (s : store) : Prop := forall k c r, sget k s = Some (c, r) -> k = hash r.
+
+  (* (v, h) is an index entry exactly when the primary holds, at hash id h, a row whose indexed column is v *)
+  Definition imirror (st : tstate) : Prop :=
+    forall v h, imem v h (snd st) = match sget h (fst st) with Some (_, r) => cell_eqb (ival r) v | None => false end.
+
+  Lemma keyed_ins r s : keyed27 s -> keyed27 (ins hash r s).
+  Proof.
+    intros K k c x. unfold ins. destruct (sget (hash r) s) as [[c1 r1]|] eqn:E; rewrite sget_sput;
+      destruct (N.eqb_spec (hash r) k) as [Ek|NE]; intro H; try (eapply K; exact H).
+    - inversion H; subst. apply (K _ _ _ E).
+    - inversion H; subst. reflexivity.
+  Qed.
+
+  Lemma keyed_del r s : keyed27 s -> keyed27 (del hash r s).
+  Proof.
+    intros K k c x. unfold del. destruct (sget (hash r) s) as [[c1 r1]|] eqn:E; [|apply K].
+    destruct (0 <? c1 - 1).
+    - rewrite sget_sput. destruct (N.eqb_spec (hash r) k) as [Ek|NE]; intro H; [|eapply K; exact H].
+      inversion H; subst. apply (K _ _ _ E).
+    - rewrite sget_sdel. destruct (hash r =? k); intro H; [discriminate|eapply K; exact H].
+  Qed.
+
+  Lemma mirror_ins r s ix :
+    keyed27 s -> imirror (s, ix) -> imirror (ins hash r s, iput (ival r, hash r) ix).
+  Proof.
+    intros K M v h. cbn [fst snd]. rewrite imem_iput, ientry_eqb_key. pose proof (M v h) as Mh. cbn [fst snd] in Mh.
+    unfold ins. destruct (sget (hash r) s) as [[c r']|] eqn:E; rewrite sget_sput;
+      rewrite (N.eqb_sym h (hash r)); destruct (N.eqb_spec (hash r) h) as [Eh|NE];
+      rewrite ?andb_false_r, ?andb_true_r; cbn [orb]; try exact Mh.
+    - subst h. rewrite E in Mh. rewrite Mh.
+      assert (r' = r) by (apply hash_inj; symmetry; apply (K _ _ _ E)). subst r'.
+      rewrite (cell_eqb_sym27 v). destruct (cell_eqb (ival r) v); reflexivity.
+    - subst h. rewrite E in Mh. rewrite Mh, orb_false_r. apply cell_eqb_sym27.
+  Qed.
+
+  Lemma mirror_secdel r s ix :
+    keyed27 s -> imirror (s, ix) -> imirror (del hash r s, sec_del hash r s ix).
+  Proof.
+    intros K M v h. cbn [fst snd]. pose proof (M v h) as Mh. cbn [fst snd] in Mh.
+    unfold del, sec_del. destruct (sget (hash r) s) as [[c r']|] eqn:E.
+    - assert (r' = r) by (apply hash_inj; symmetry; apply (K _ _ _ E)). subst r'.
+      destruct (N.ltb_spec 1 c) as [Hc|Hc]; destruct (N.ltb_spec 0 (c - 1)) as [Hc'|Hc']; try lia.
+      + rewrite sget_sput. destruct (N.eqb_spec (hash r) h) as [Eh|NE]; [|exact Mh].
+        subst h. rewrite E in Mh. exact Mh.
+      + rewrite sget_sdel, imem_idel27, ientry_eqb_key.
+        destruct (N.eqb_spec (hash r) h) as [Eh|NE].
+        * subst h. rewrite E in Mh. rewrite Mh, andb_true_r. destruct (cell_eqb (ival r) v); reflexivity.
+        * rewrite andb_false_r. cbn [negb]. rewrite andb_true_r. exact Mh.
+    - rewrite imem_idel27, ientry_eqb_key. destruct (N.eqb_spec (hash r) h) as [Eh|NE].
+      + subst h. rewrite E in Mh. rewrite Mh, E. reflexivity.
+      + rewrite andb_false_r. cbn [negb]. rewrite andb_true_r. exact Mh.
+  Qed.
+
+  Lemma tstep_inv st o : keyed27 (fst st) /\ imirror st -> keyed27 (fst (tstep hash st o)) /\ imirror (tstep hash st o).
+  Proof.
+    destruct st as [s ix]. cbn [fst]. intros [K M]. destruct o as [r|r|a b]; cbn [tstep fst].
+    - split; [apply keyed_ins; exact K|apply mirror_ins; assumption].
+    - split; [apply keyed_del; exact K|apply mirror_secdel; assumption].
+    - split; [apply keyed_ins, keyed_del; exact K|].
+      apply mirror_ins; [apply keyed_del; exact K|apply mirror_secdel; assumption].
+  Qed.
+
+  (* for every sequence of writer operations on an empty indexed keyless table: the index mirrors the primary *)
+  Theorem index_mirrors_store : forall ops,
+    keyed27 (fst (trun hash ops ([], []))) /\ imirror (trun hash ops ([], [])).
+  Proof.
+    assert (G : forall ops st, keyed27 (fst st) /\ imirror st ->
+                keyed27 (fst (trun hash ops st)) /\ imirror (trun hash ops st)).
+    { induction ops as [|o ops IH]; intros st H; cbn [trun fold_left]; [exact H|].
+      apply IH. apply tstep_inv. exact H. }
+    intro ops. apply G. split; [intros k c r H; discriminate|intros v h; reflexivity].
+  Qed.
+
+  Lemma trun_store ops : forall st, fst (trun hash ops st) = run hash ops (fst st).
+  Proof.
+    induction ops as [|o ops IH]; intro st; cbn [trun run fold_left]; [reflexivity|].
+    fold (trun hash ops (tstep hash st o)). fold (run hash ops (step hash (fst st) o)).
+    rewrite IH. destruct st as [s ix]. destruct o; reflexivity.
+  Qed.
+
+  (* the statement asked for: after every sequence of writer operations, the entry (indexed value of r,
+     hash id of r) is in the index exactly when r's multiplicity is positive *)
+  Theorem index_entry_iff_present : forall ops r,
+    let st := trun hash ops ([], []) in
+    imem (ival r) (hash r) (snd st) = true <-> 0 < card_of hash (fst st) r.
+  Proof.
+    intros ops r st. destruct (index_mirrors_store ops) as [K M]. fold st in K, M.
+    rewrite (M (ival r) (hash r)). unfold card_of.
+    assert (P : positive (fst st)).
+    { unfold st. rewrite trun_store. apply positive_run. apply positive_nil. }
+    destruct (sget (hash r) (fst st)) as [[c r']|] eqn:E.
+    - assert (r' = r) by (apply hash_inj; symmetry; apply (K _ _ _ E)). subst r'.
+      rewrite cell_eqb_refl. split; [intros _; apply (P _ _ _ E)|reflexivity].
+    - split; [discriminate|lia].
+  Qed.
+End IndexMirror.
